@@ -1319,12 +1319,42 @@ func (c *Ctx) foldOrder(b *ssa.BinOp, neg bool) (bool, bool) {
 		return false, false
 	}
 	for _, a := range c.Assume {
-		if a.NotEqual {
-			continue
-		}
 		match := (a.TypeName != "" && typeNameOf(other.Type()) == a.TypeName) || (a.ProvPat != "" && prov.Match(a.ProvPat, prov.Of(other)))
 		if !match {
 			continue
+		}
+		if a.NotEqual {
+			// x != 0 for a non-negative x (a length, an index of a range or
+			// index loop, an unsigned value) means x >= 1
+			if a.Value != "0" || !(nonNegative(other) || prov.Of(other) == "rangeidx") {
+				continue
+			}
+			k, exact := constant.Int64Val(cst.Value)
+			if !exact {
+				continue
+			}
+			op := b.Op
+			if swapped {
+				op = swap(op)
+			}
+			var res, known bool
+			switch op {
+			case token.GTR: // x > k
+				res, known = true, k <= 0
+			case token.GEQ: // x >= k
+				res, known = true, k <= 1
+			case token.LSS: // x < k
+				res, known = false, k <= 1
+			case token.LEQ: // x <= k
+				res, known = false, k <= 0
+			}
+			if !known {
+				continue
+			}
+			if neg {
+				res = !res
+			}
+			return res, true
 		}
 		av := constant.MakeFromLiteral(a.Value, token.INT, 0)
 		if av.Kind() != constant.Int {
